@@ -13,12 +13,12 @@ import (
 	"testing"
 	"time"
 
+	"bytes"
 	goconfig "github.com/TheCacophonyProject/go-config"
 	"github.com/TheCacophonyProject/lepton3"
 	"github.com/TheCacophonyProject/thermal-recorder/motion"
 	"github.com/TheCacophonyProject/thermal-recorder/recorder"
 	"github.com/TheCacophonyProject/window"
-	"bytes"
 	"os/signal"
 	"syscall"
 )
@@ -105,7 +105,8 @@ func TestVerifRealSinks(t *testing.T) {
 		mp := motion.NewMotionProcessor(lepton3.ParseRawFrame, &conf.Motion, &conf.Recorder, &conf.Location, nil, mrec, cam, crec, srec)
 		panicMsg := ""
 		hot, id := false, 0
-		broken := false
+		stale, firstStale := 0, 0
+		broken, blocked := false, false
 		sinceBad := 1000 // steps since the last bad frame
 		afterBad := false
 		func() {
@@ -127,8 +128,20 @@ func TestVerifRealSinks(t *testing.T) {
 						os.Rename(dir, dir+".off")
 						broken = true
 					}
+				case "blockdir":
+					// the output directory is replaced by a regular file: the disk-space check (statfs) still succeeds,
+					// every file creation in it fails - StartRecording itself fails
+					if !broken {
+						os.Rename(dir, dir+".off")
+						os.WriteFile(dir, []byte("x"), 0644)
+						broken, blocked = true, true
+					}
 				case "fixdir":
 					if broken {
+						if blocked {
+							os.Remove(dir)
+							blocked = false
+						}
 						os.Rename(dir+".off", dir)
 						broken = false
 					}
@@ -171,11 +184,21 @@ func TestVerifRealSinks(t *testing.T) {
 						lvl = 300
 					}
 					mp.Process(rsLepton(4, 3, id, lvl, uint32(60000+id*100), false))
+					// what a snapshot request served right now would return: the frame just processed
+					if _, rf := mp.GetRecentFrame(); rf == nil || int(rf.Pix[0][0]) != id {
+						stale++
+						if firstStale == 0 {
+							firstStale = id
+						}
+					}
 					time.Sleep(1200 * time.Microsecond)
 				}
 			}
 		}()
 		if broken {
+			if blocked {
+				os.Remove(dir)
+			}
 			os.Rename(dir+".off", dir)
 		}
 		if fsLimit {
@@ -209,6 +232,7 @@ func TestVerifRealSinks(t *testing.T) {
 			}
 		}
 		enc.Encode(map[string]interface{}{"ev": "realsinks", "script": si, "panic": panicMsg, "undecodable": undec,
-			"frames": id, "last": lastIds, "N": sc.Preview*sc.Fps + sc.Trig, "MinF": sc.Min * sc.Fps, "files": len(files), "all": allIds, "after_bad": afterBad})
+			"frames": id, "last": lastIds, "N": sc.Preview*sc.Fps + sc.Trig, "MinF": sc.Min * sc.Fps, "files": len(files), "all": allIds, "after_bad": afterBad,
+			"stale_snapshots": stale, "first_stale": firstStale})
 	}
 }
